@@ -215,6 +215,13 @@ func c11History(c *rt.Ctx, h int) {
 			}
 		}
 		sp, sq := fsx.Snap(P, "/", fsx.SnapOpts{}), fsx.Snap(Q, "/", fsx.SnapOpts{})
+		// the twin is itself driven through a view of "/" (it has to carry the user, umask and cwd of the view): what a view
+		// and its parent could get wrong *together* - the identity of the nodes each of them creates - is judged on the
+		// parent's tree alone, with the C05 public invariants (link counts against SameFile paths, no aliased directory)
+		if bad := sp.InvariantProblems(); len(bad) > 0 {
+			c.Disagree("view|parent-tree-not-well-formed|"+firstWords(bad[0]), fmt.Sprintf("Sub(%q): after %s the parent's tree is not well formed: %v", dir, hist[len(hist)-1], bad[:min3(4, len(bad))]), replay())
+			return
+		}
 		if sp.String() != sq.String() {
 			c.Disagree("view|tree-differs-from-twin|"+strings.SplitN(strings.SplitN(hist[len(hist)-1], ": ", 2)[1], "(", 2)[0], fmt.Sprintf("Sub(%q): after %s the parent's tree differs from the twin driven with prefixed paths: %v", dir, hist[len(hist)-1], fsx.Diff(sp, sq, false, 6)), replay())
 			return
